@@ -7,6 +7,7 @@ import (
 	"math/big"
 	"net/url"
 	"strings"
+	"unicode/utf8"
 
 	"github.com/ja7ad/otp"
 )
@@ -1371,6 +1372,114 @@ func genC10(r *rng, n int, emit func(string)) {
 				pick(r, []uint64{0, 1, 30, 1 << 32, 1<<63 - 1, 1 << 63, 1<<64 - 1})))
 		case 15:
 			emit("uparse " + hxs(hostileString(r)))
+		}
+	}
+}
+
+// ---------------- C20: WebAssembly / JavaScript binding ----------------
+func init() { streams["c20"] = genC20 }
+
+func jsStr(s string) string { return "s" + hxs(s)[1:] }
+
+var jsOddArgs = []string{"u", "l", "b1", "b0", "o", "a", "f", "y", "g", "nNaN", "nInf", "n-Inf", "n-1", "n-0", "q-0", "q-3", "n1e300", "n-1e300", "n9223372036854775808", "n9223372036854774784", "n18446744073709551616", "s", "s31", "n0", "n1", "q1", "n3600", "n3601", "n11", "n10"}
+
+func genC20(r *rng, n int, emit func(string)) {
+	emit("wexports")
+	names := []string{"generateHOTP", "generateTOTP", "validateHOTP", "validateTOTP", "generateOTPURL"}
+	arity := map[string]int{"generateHOTP": 4, "generateTOTP": 5, "validateHOTP": 6, "validateTOTP": 7, "generateOTPURL": 6}
+	secret := "GEZDGNBVGY3TQOJQGEZDGNBVGY3TQOJQ"
+	good := map[string][]string{
+		"generateHOTP":   {jsStr(secret), "n1", jsStr("6"), jsStr("SHA1")},
+		"generateTOTP":   {jsStr(secret), "n59", jsStr("8"), jsStr("SHA1"), "n30"},
+		"validateHOTP":   {jsStr(secret), jsStr("287082"), "n1", jsStr("6"), jsStr("SHA1"), "n1"},
+		"validateTOTP":   {jsStr(secret), jsStr("94287082"), "n59", jsStr("8"), jsStr("SHA1"), "n1", "n30"},
+		"generateOTPURL": {jsStr("totp"), jsStr("My Co"), jsStr("a@b"), jsStr(secret), jsStr("6"), jsStr("SHA1")},
+	}
+	// every argument position with every odd JS value; too few / too many arguments; both access paths
+	for _, nm := range names {
+		for _, via := range []string{"g", "e"} {
+			emit("wcall " + nm + " " + via + " " + strings.Join(good[nm], " "))
+			for k := 0; k <= arity[nm]+1; k++ {
+				args := append([]string{}, good[nm]...)
+				for len(args) < k {
+					args = append(args, "n1")
+				}
+				emit(strings.TrimSpace("wcall " + nm + " " + via + " " + strings.Join(args[:k], " ")))
+			}
+		}
+		for pos := 0; pos < arity[nm]; pos++ {
+			for _, odd := range jsOddArgs {
+				args := append([]string{}, good[nm]...)
+				args[pos] = odd
+				emit("wcall " + nm + " " + pick(r, []string{"g", "e"}) + " " + strings.Join(args, " "))
+			}
+		}
+	}
+	digitsSp := []string{"6", "8", "9", "10", "7", "06", "", "ten", "10 "}
+	algoSp := []string{"SHA1", "SHA256", "SHA512", "sha1", "SHA-256", "MD5", "x"}
+	counters := []uint64{0, 1, 2, 9, 10, 11, 255, 1<<31 - 1, 1 << 31, 1<<32 - 1, 1 << 32, 1<<32 + 1, 1<<53 - 11, 1<<53 - 1, 1 << 53}
+	for i := 0; i < n; i++ {
+		sec, key := genSecret(r)
+		if r.chance(1, 12) {
+			sec = pick(r, []string{"not base32!", "MZXW6===MZXW6===", "A", "ABC"})
+		}
+		dsp := pick(r, digitsSp)
+		if r.chance(2, 3) {
+			dsp = pick(r, []string{"6", "8", "9", "10"})
+		}
+		asp := pick(r, algoSp)
+		if r.chance(2, 3) {
+			asp = pick(r, []string{"SHA1", "SHA256", "SHA512"})
+		}
+		d := otp.DigitsFromStr(dsp).Int()
+		a := uint64(otp.AlgorithmFromStr(asp))
+		via := pick(r, []string{"g", "e"})
+		c := pick(r, counters)
+		if r.chance(1, 2) {
+			c = uint64(r.intn(1 << 20))
+		}
+		cnum := fmt.Sprintf("n%d", c)
+		if r.chance(1, 10) && c < 1<<50 {
+			cnum = fmt.Sprintf("q%d", c) // fractional numbers are truncated
+		}
+		switch r.intn(6) {
+		case 0:
+			emit(fmt.Sprintf("wcall generateHOTP %s %s %s %s %s", via, jsStr(sec), cnum, jsStr(dsp), jsStr(asp)))
+		case 1:
+			per := uint64(pick(r, []int{1, 2, 29, 30, 31, 60, 3599, 3600}))
+			emit(fmt.Sprintf("wcall generateTOTP %s %s %s %s %s n%d", via, jsStr(sec), cnum, jsStr(dsp), jsStr(asp), per))
+		case 2, 3:
+			skew := int64(r.intn(11))
+			dist := int64(r.intn(int(2*(skew+2)+1))) - (skew + 2)
+			cc := c + uint64(dist)
+			code := refHOTP(key, cc, d, a)
+			if r.chance(1, 5) {
+				code = mutateCode(r, code)
+			}
+			if code == "" {
+				code = "0"
+			}
+			emit(fmt.Sprintf("wcall validateHOTP %s %s %s %s %s %s n%d", via, jsStr(sec), jsStr(code), cnum, jsStr(dsp), jsStr(asp), skew))
+		case 4:
+			skew := int64(r.intn(11))
+			per := uint64(pick(r, []int{1, 2, 29, 30, 31, 60, 3600, 86400}))
+			dist := int64(r.intn(int(2*(skew+2)+1))) - (skew + 2)
+			step := c/per + uint64(dist)
+			code := refHOTP(key, step, d, a)
+			if r.chance(1, 5) {
+				code = mutateCode(r, code)
+			}
+			if code == "" {
+				code = "0"
+			}
+			emit(fmt.Sprintf("wcall validateTOTP %s %s %s %s %s %s n%d n%d", via, jsStr(sec), jsStr(code), cnum, jsStr(dsp), jsStr(asp), skew, per))
+		case 5:
+			iss := urlString(r, 3, true)
+			acc := urlString(r, 3, false)
+			if !utf8.ValidString(iss) || !utf8.ValidString(acc) || strings.ContainsAny(iss+acc, "\x00") {
+				iss, acc = "My Company", "alice@example.com"
+			}
+			emit(fmt.Sprintf("wcall generateOTPURL %s %s %s %s %s %s %s", via, jsStr(pick(r, []string{"totp", "hotp", "TOTP", "x"})), jsStr(iss), jsStr(acc), jsStr(sec), jsStr(dsp), jsStr(asp)))
 		}
 	}
 }
